@@ -265,11 +265,21 @@ func trailStr(t []decision) string {
 	return s
 }
 
-var propLabelRe = regexp.MustCompile(`^(C[0-9]{2,3})\.`)
+// an assertion label may start with one or more property ids ("C07.", "C07+C09+C18."): it is then
+// only an obligation of checks run for one of those properties; unprefixed labels always apply
+var propLabelRe = regexp.MustCompile(`^(C[0-9]{2,3}(?:\+C[0-9]{2,3})*)\.`)
 
 func (p *Path) assertion(label string, cond *Term) {
-	if m := propLabelRe.FindStringSubmatch(label); m != nil && p.hr.Prop != "" && m[1] != p.hr.Prop {
-		return // belongs to another property's check
+	if m := propLabelRe.FindStringSubmatch(label); m != nil && p.hr.Prop != "" {
+		mine := false
+		for _, id := range strings.Split(m[1], "+") {
+			if id == p.hr.Prop {
+				mine = true
+			}
+		}
+		if !mine {
+			return // belongs to another property's check
+		}
 	}
 	p.obligation(label, "assert", "", cond)
 	// continue under the asserted condition so later obligations are independent
